@@ -175,3 +175,117 @@ func c09UnconditionalKey(p *Prog) *RuleResult {
 	r.Floor(15)
 	return r
 }
+
+// C09/R7 modification-key components.
+//
+// A rebuild skips re-reading a file, and watch mode skips a rebuild, when the file's modification
+// key is unchanged. The key is a summary of stat(2); it stands in for the contents only if it
+// contains what changes whenever the file at that path becomes a different file version:
+// identity of the file object (inode — a rename over the path keeps size and mtime of the moved
+// file), size, modification time (seconds and, where the platform has them, nanoseconds) and mode.
+// Rule: the ModKey value fs.modKey returns is built from all of these stat components of the
+// platform's stat structure (unix.Stat_t: Ino, Size, Mtim/Mtimespec.Sec, .Nsec, Mode; elsewhere
+// os.FileInfo: Size(), ModTime(), Mode()), and every ModKey comparison in the module is a whole-
+// struct comparison (so every field takes part).
+func c09ModKeyComponents(p *Prog) *RuleResult {
+	r := NewRule("C09/R7 modkey-components", "the modification key that stands in for a file's contents on rebuilds is built from the file's identity (inode, where the platform has one), size, modification time and mode, and is compared as a whole")
+	fn := p.FindFunc("fs.modKey")
+	if !r.Anchor("fs.modKey", fn != nil) {
+		return r
+	}
+	// stat components that flow into the returned ModKey
+	got := map[string]bool{}
+	unixStat := false
+	for _, b := range fn.Blocks {
+		if !isReturnBlock(b) {
+			continue
+		}
+		ret := b.Instrs[len(b.Instrs)-1].(*ssa.Return)
+		if len(ret.Results) < 1 {
+			continue
+		}
+		backSlice(ret.Results[0], func(v ssa.Value) bool {
+			switch x := v.(type) {
+			case *ssa.FieldAddr:
+				o := namedTypeName(x.X.Type())
+				if strings.HasSuffix(o, "Stat_t") {
+					unixStat = true
+					got[fieldAddrName(x)] = true
+				}
+				if strings.HasSuffix(o, "Timespec") {
+					got["time."+fieldAddrName(x)] = true
+				}
+			case *ssa.Field:
+				o := namedTypeName(x.X.Type())
+				if strings.HasSuffix(o, "Stat_t") {
+					unixStat = true
+					got[fieldValName(x)] = true
+				}
+				if strings.HasSuffix(o, "Timespec") {
+					got["time."+fieldValName(x)] = true
+				}
+			case *ssa.Call:
+				if x.Call.IsInvoke() {
+					got["FileInfo."+x.Call.Method.Name()] = true
+				} else if callee := x.Call.StaticCallee(); callee != nil {
+					got["call."+callee.Name()] = true
+				}
+			}
+			return true
+		})
+	}
+	var need [][]string // alternatives per component
+	if unixStat {
+		need = [][]string{{"Ino"}, {"Size"}, {"Mtim", "Mtimespec"}, {"time.Sec"}, {"time.Nsec"}, {"Mode"}}
+	} else {
+		need = [][]string{{"FileInfo.Size"}, {"FileInfo.ModTime"}, {"FileInfo.Mode"}}
+	}
+	for _, alts := range need {
+		r.Instances++
+		key := "modKey uses stat component " + strings.Join(alts, "|")
+		ok := false
+		for _, a := range alts {
+			if got[a] {
+				ok = true
+			}
+		}
+		if ok {
+			r.OK(key, true, "flows into the returned ModKey")
+		} else {
+			why := "a different file version at the same path can have the same key, so rebuilds and watch mode keep serving the old contents"
+			if alts[0] == "Ino" {
+				why = "a file renamed over the path keeps its size and modification time; without the inode the key does not change and the rebuild serves the old contents (a fresh build reads the new ones)"
+			}
+			r.Fail(key, p.Pos(fn.Pos()), "the modification key is not built from "+strings.Join(alts, "/")+": "+why)
+		}
+	}
+	// whole-struct comparisons only
+	r.Instances++
+	partial := ""
+	cmp := 0
+	for _, f := range p.ModuleFuncs() {
+		eachInstr(f, func(b *ssa.BasicBlock, in ssa.Instruction) {
+			bo, ok := in.(*ssa.BinOp)
+			if !ok || (bo.Op != token.EQL && bo.Op != token.NEQ) {
+				return
+			}
+			if namedTypeName(bo.X.Type()) == "fs.ModKey" {
+				cmp++
+				return
+			}
+			for _, side := range []ssa.Value{bo.X, bo.Y} {
+				if o, n, ok := loadedField(side); ok && o == "fs.ModKey" && f.Name() != "modKey" {
+					partial = p.Pos(bo.Pos()) + " compares only ModKey." + n
+				}
+			}
+		})
+	}
+	if partial != "" {
+		r.Fail("ModKey compared as a whole", partial, "a modification key is compared field by field ("+partial+"): a component that is not compared does not protect against stale contents")
+	} else if cmp == 0 {
+		r.Fail("ModKey compared as a whole", p.Pos(fn.Pos()), "no comparison of fs.ModKey values found")
+	} else {
+		r.OK("ModKey compared as a whole", true, fmt.Sprintf("%d whole-struct comparisons, no field-wise comparison", cmp))
+	}
+	return r
+}
